@@ -180,7 +180,7 @@ func (k *check) isoPairs(r *rand.Rand) []cw.IsoPair {
 	craft("space-in-tag", func(c *cw.Cfg) { c.Tags = []string{"a b"} }, func(c *cw.Cfg) { c.Tags = []string{"a", "b"} }, ip, ip)
 	craft("comma-space-in-tag", func(c *cw.Cfg) { c.Tags = []string{"a, b"} }, func(c *cw.Cfg) { c.Tags = []string{"a", "b"} }, ip, ip)
 	craft("newline-in-version", func(c *cw.Cfg) { c.Version = "v\n" }, func(c *cw.Cfg) { c.Version = `v\n` }, ip, ip)
-	craft("unicode-escape", func(c *cw.Cfg) { c.Version = "vé" }, func(c *cw.Cfg) { c.Version = `vé` }, ip, ip)
+	craft("unicode-escape", func(c *cw.Cfg) { c.Version = "v\u00e9" }, func(c *cw.Cfg) { c.Version = `v\u00e9` }, ip, ip)
 	craft("empty-vs-space", func(c *cw.Cfg) { c.GOOS = "" }, func(c *cw.Cfg) { c.GOOS = " " }, ip, ip)
 	craft("percent", func(c *cw.Cfg) { c.Version = "%s" }, func(c *cw.Cfg) { c.Version = "%!s(MISSING)" }, ip, ip)
 	// path.Join cleans the concatenation of "package", the rendered configuration and the import path
@@ -401,7 +401,7 @@ func (k *check) judgePair(p cw.IsoPair, r cw.IsoPairRes) {
 		if strings.Join(ka, "\x00") != strings.Join(kb, "\x00") && path.Join(ka...) == path.Join(kb...) {
 			// root cause attributed: the distinct raw keys become equal only through the
 			// path cleaning done by path.Join in cachedPath/packageKey
-			k.classViolate("key-collision-by-path-cleaning/"+r.Kind,
+			k.classViolate("key-collision-by-path-cleaning",
 				"two different configurations map to the same cache file because packageKey/cachedPath pass the rendered configuration through path.Join, which cleans `..`, `.` and empty segments across field boundaries",
 				what+fmt.Sprintf("\n  raw keys %q and %q both clean to %q", path.Join(ka[0], "")+"/"+ka[1]+"/"+ka[2], kb[0]+"/"+kb[1]+"/"+kb[2], path.Join(ka...)), nil)
 			return
